@@ -397,6 +397,75 @@ Section PollProofs.
     intro E. inversion E; subst. eapply reads_wake; [|exact Er]. lia.
   Qed.
 
+  (* ... and the same for SIGWINCH: an iteration that gets through select with the flag set and
+     the signal pipe readable, and that completes (no hang-up, no termination signal with it),
+     has queued a Resize event *)
+  Lemma events_arrive : forall (s : pstate) m e, In e (events s) -> In e (events (arrive s m)).
+  Proof. intros s m e H. destruct m; cbn; try destruct (sig_closed s); cbn; auto. Qed.
+
+  Lemma events_arrive_all : forall ms (s : pstate) e, In e (events s) -> In e (events (arrive_all s ms)).
+  Proof.
+    unfold arrive_all. induction ms as [|m ms IH]; intros s e H; cbn; auto.
+    apply IH, events_arrive, H.
+  Qed.
+
+  Lemma events_wake_step : forall (s : pstate) e, In e (events s) -> In e (events (wake_step s)).
+  Proof.
+    intros s e H. unfold wake_step. destruct (Nat.min (pipe s) 1024); cbn; auto.
+    apply in_or_app. now left.
+  Qed.
+
+  Lemma winch_arrive_all : forall ms (s : pstate),
+    winch s = true -> sigpipe s = true ->
+    winch (arrive_all s ms) = true /\ sigpipe (arrive_all s ms) = true.
+  Proof.
+    unfold arrive_all. induction ms as [|m ms IH]; intros s Hw Hs; cbn; auto.
+    apply IH; destruct m; cbn; try destruct (sig_closed s); cbn; auto.
+  Qed.
+
+  Lemma reads_resize : forall (s1 : pstate) r b c s',
+    winch s1 = true -> sigpipe s1 = true ->
+    reads s1 r true b c = inr s' -> In EvResize (events s').
+  Proof.
+    intros s1 r b c s' Hw Hs. unfold reads.
+    destruct (winch_arrive_all (r_sig r) s1 Hw Hs) as [Hw2 _].
+    set (s2 := arrive_all s1 (r_sig r)) in *.
+    unfold sig_step. rewrite Hw2. cbn [andb].
+    destruct (hup s2); [discriminate|]. destruct (termsig s2); [discriminate|].
+    match goal with |- context [arrive_all (push ?x EvResize) (r_wk r)] => set (s3 := push x EvResize) end.
+    assert (H3 : In EvResize (events s3)) by (cbn; apply in_or_app; right; now left).
+    set (s4 := arrive_all s3 (r_wk r)).
+    assert (H4 : In EvResize (events s4)) by now apply events_arrive_all.
+    set (s5 := if b then wake_step s4 else s4).
+    assert (H5 : In EvResize (events s5)) by (unfold s5; destruct b; auto using events_wake_step).
+    set (s6 := arrive_all s5 (r_in r)).
+    assert (H6 : In EvResize (events s6)) by now apply events_arrive_all.
+    destruct c.
+    - pose proof (events_in_step s6 (r_take r) EvResize H6) as H7.
+      destruct (in_step s6 (r_take r)); [|discriminate]. intro E. inversion E; subst. exact H7.
+    - intro E. inversion E; subst. exact H6.
+  Qed.
+
+  Theorem round_queues_resize : forall (s : pstate) r nodelay s' w,
+    winch (arrive_all s (r_before r)) = true -> sigpipe (arrive_all s (r_before r)) = true ->
+    round_body s r nodelay = inr (s', w) ->
+    In EvResize (events s').
+  Proof.
+    intros s r nodelay s' w Hw Hs. unfold round_body.
+    set (s0 := arrive_all s (r_before r)) in *.
+    rewrite Hs. rewrite orb_true_r. cbn [orb negb andb].
+    match goal with |- context [write_step s0 r ?w] =>
+      assert (Hws : match write_step s0 r w with inl s1 => winch s1 = true /\ sigpipe s1 = true | inr _ => True end) end.
+    { unfold write_step. destruct (_ && _); auto. destruct (r_wr_err r || hup _); auto.
+      destruct (r_accept r); auto. destruct (poll_round _ _); auto. }
+    match goal with |- context [write_step s0 r ?w] => destruct (write_step s0 r w) as [s1|e] end;
+      [|discriminate].
+    destruct Hws as [Hw1 Hs1].
+    match goal with |- context [reads s1 r true ?b ?c] => destruct (reads s1 r true b c) as [x|s7] eqn:Er end;
+      [discriminate|].
+    intro E. inversion E; subst. eapply reads_resize; [exact Hw1|exact Hs1|exact Er].
+  Qed.
+
   (* events leave in the order they were queued *)
   Theorem poll_returns_oldest : forall s : pstate,
     fst (pop_ret s) = PRet (hd_error (events s)) /\ events (snd (pop_ret s)) = tl (events s).
